@@ -180,7 +180,7 @@ pub fn read_and_cut_text_as_bytes<R: BufRead, W: Write>(
     let last_interesting_field = opt.bounds.last_interesting_field;
 
     match opt.eol {
-        EOL::Newline => stdin.for_byte_line(|line| {
+        EOL::Newline => stdin.for_byte_record(opt.eol.into(), |line| {
             cut_str_fast_lane(line, opt, stdout, &mut fields, last_interesting_field)
                 // XXX Should map properly the error
                 .map_err(|x| io::Error::new(io::ErrorKind::Other, x.to_string()))
